@@ -1,9 +1,9 @@
 SPECIFICATION Spec
 CONSTANTS
   P = 3
-  NPUB = 2
+  NPUB = 1
   NPRIV = 0
-  PreConsts <- Pre2
+  PreConsts <- Pre12
   MaxCalls = 2
   MaxConn = 1
   Kinds = {"add", "sub", "mul", "div", "connect", "azero", "abool"}
